@@ -165,6 +165,22 @@ func c01Case(r *ev.Run, p *prng.R, batch, ci int) {
 		return
 	}
 	defer writer.Close()
+	if ci%2 == 1 {
+		// bystanders: other connections monitoring the same tables with their own (often
+		// narrower) column selections and select flags; what the server prepares for them
+		// must not leak into what the client under test receives
+		for i := 0; i < 1+p.Intn(2); i++ {
+			by, err := peer.Dial(srv.Path)
+			if err != nil {
+				break
+			}
+			defer by.Close()
+			for k := 0; k < 1+p.Intn(2); k++ {
+				_, _ = genMonReq(p, s, 500+10*i+k, true, false).register(by, s.Name)
+			}
+		}
+		r.Count("cases_with_bystander_monitors", 1)
+	}
 	l := logr.Discard()
 	cl, err := client.NewOVSDBClient(m.Client, client.WithEndpoint("unix:"+srv.Path), client.WithLogger(&l))
 	if err != nil {
